@@ -64,9 +64,15 @@ CHECKS = {
             "service; missing/non-string field = empty string); TLC checks ExactlyAdmitted, OrderPreserved and ChannelIndependence "
             "for every configuration with 0..1 filter (900) exhaustively and sampled 2- and 4-filter configurations, each against the "
             "full 8x8 alphabet of (category, service) values; every configuration is rendered as TOML, wired by the real server.Run "
-            "and fed the event stream through the real bus; per-channel ordered captures and tokens are compared.",
-            "Regex alphabet: literal, ^prefix, ^full$, alternation, empty; Bus!Match is their meaning; capture channels stand in "
-            "for real channels.",
+            "and fed the event stream through the real bus; per-channel ordered captures and tokens are compared. Whole-server part: "
+            "Honeytrap.tla composes DispatchRule (routing) and Bus (fan-out) with ExactlyAdmitted, OrderPreserved, Attributed, "
+            "SilentIfUnrouted and OneFatalPerPanic; filter configurations drawn by TLC are wired into the real server with REAL services "
+            "(http and telnet on a shared port, ftp, redis, a stub that panics on demand), two capture channels, a catch-all channel and "
+            "the real file channel; real clients connect one at a time, the recorded whole-server trace (accepts, events with the "
+            "positions at which the same event object reached every capture channel, the recovered panic's fatal event) is validated by "
+            "TLC against Honeytrap_Trace.tla, and the file channel's log must hold exactly the events TLC says it holds.",
+            "Regex alphabet: literal, ^prefix, ^full$, alternation, empty; Bus!Match is their meaning; in the bus part capture channels "
+            "stand in for real channels; in the whole-server part connections are sequential (bus order = catch-all order).",
             "TLA+ spec + TLC exhaustive/simulate generation, replay into real server.Run + bus",
             "DESIGN.md §3 C06"),
     "C07": ("model_checking",
